@@ -4489,9 +4489,14 @@ impl GlobalInferenceCtx<'_> {
                 // in this case we might code something special in the `infer_expr`
                 // code to calculate the meta type if the local is constant, but that
                 // would waste a lot of space and what about members? it's just too much
+                // the body belongs to the file of the global, which isn't necessarily ours
                 let old_tfqn = std::mem::replace(&mut self.loc, tfqn.wrap());
-                let actual_ty = self.const_ty(global_body)?;
+                let old_bodies =
+                    std::mem::replace(&mut self.bodies, &self.world_bodies[tfqn.file()]);
+                let actual_ty = self.const_ty(global_body);
                 self.loc = old_tfqn;
+                self.bodies = old_bodies;
+                let actual_ty = actual_ty?;
 
                 if actual_ty.can_have_a_name() {
                     set_type_name(actual_ty, TyName::Global(tfqn));
